@@ -430,25 +430,45 @@ class Engine:
                 out[name] = model_value(m, v)
         return out
 
-    nice_timeout_ms = 2000
+    nice_timeout_ms = 1500
 
     def nice_model(self, goal_extra=(), denominators=(1, 2, 8, 1024)):
         """try to find a model of pc /\\ goal_extra whose real inputs are dyadic rationals
-        (exactly representable doubles), so that ties and borders survive replay."""
+        (exactly representable doubles), so that ties and borders survive replay.
+        1. round an arbitrary model to k/d and ask whether the rounded inputs still satisfy everything (cheap: inputs fixed);
+        2. otherwise ask the solver for a model with v*d integral (finds ties / borders; gives up on the first unknown)."""
         reals = [v for v in self.inputs.values() if not isinstance(v, float) and v.sort() == z3.RealSort()]
+        ints = [v for v in self.inputs.values() if not isinstance(v, float) and v.sort() == z3.IntSort()]
         base = self.pc + list(goal_extra)
+        if not reals:
+            m = self.path_model(goal_extra)
+            return m if (m is not None and self._model_ok(m, base)) else None
+        m0 = self.path_model(goal_extra)
+        if m0 is not None:
+            try:
+                vals = [(v, model_value(m0, v)) for v in reals]
+                ifix = [v == m0.eval(v, model_completion=True) for v in ints]
+                for d in denominators:
+                    fix = [v == z3.Q(int(round(x * d)), d) for v, x in vals]
+                    r, s2 = self._fresh_check(base + fix + ifix, 1000)
+                    if r == z3.sat:
+                        m = s2.model()
+                        if self._model_ok(m, base):
+                            return m
+            except Exception:
+                pass
         for d in denominators:
-            ks = []
             cs = []
             for v in reals:
                 k = z3.Int('dy!' + v.decl().name())
-                ks.append(k)
                 cs.append(v * d == z3.ToReal(k))
             r, s2 = self._fresh_check(base + cs, self.nice_timeout_ms)
             if r == z3.sat:
                 m = s2.model()
                 if self._model_ok(m, base):
                     return m
+            elif r == z3.unknown:
+                break
         return None
 
     @staticmethod
@@ -934,7 +954,15 @@ def sym_sqrt(x):
         if bool(SBool(neg)):
             raise ValueError('math domain error')
     r = ENG.fresh_real('sqrt')
-    ENG.assume(z3.And(r >= 0, r * r == _r(x.z)), check=False)
+    xz = _r(x.z)
+    cs = [r >= 0, r * r == xz]
+    # redundant (implied) monotonicity facts against the square roots already taken on this path: they let the solver
+    # decide comparisons between two roots from the comparison of their arguments
+    prev = ENG.memo.setdefault('sqrt!all', [])
+    for (xj, rj) in prev[-6:]:
+        cs.append((xz <= xj) == (r <= rj))
+    prev.append((xz, r))
+    ENG.assume(z3.And(cs), check=False)
     out = SReal(r)
     ENG.memo[key] = (sz, out)   # keep the term alive so that ids stay unique
     return out
